@@ -187,7 +187,8 @@ class Exec:
             if self.branch(cond, "%s@%d" % (kind, line)):
                 return
             raise PyRaise(VExc(kind, {}, node))
-        self.oblige("no_exception.%s@%d" % (kind, line), cond, self.con.tags, line, "no_exception")
+        self.oblige("no_exception.%s@%d" % (kind, line), cond, getattr(self.con, "no_exception_tags", None) or self.con.tags,
+                    line, "no_exception")
         self.assume(cond)
 
     def branch(self, cond, label=""):
@@ -313,7 +314,8 @@ class Exec:
         clauses = [r for r in con.eval_raises(c) if r[0] == exc.cls]
         line = getattr(exc.node, "lineno", 0)
         if not clauses:
-            self.oblige("no_exception.%s@%d" % (exc.cls, line), BoolVal(False), con.tags, line, "no_exception")
+            self.oblige("no_exception.%s@%d" % (exc.cls, line), BoolVal(False), getattr(con, "no_exception_tags", None) or con.tags,
+                        line, "no_exception")
             return
         self.frame_obligations()
         alts = []
@@ -732,6 +734,12 @@ class Exec:
             return VClass(e.id)
         if e.id == "Exception":
             return VClass("Exception")
+        try:
+            fd = self.src.func("%s.%s" % (self.mod, e.id))      # a module-level helper function: executed in place
+        except Exception:
+            fd = None
+        if fd is not None and not fd.args.vararg and not fd.args.kwarg:
+            return VClosure(fd, {}, "%s.%s" % (self.mod, e.id))
         raise Unsupported("unknown name %s at %d" % (e.id, e.lineno))
 
     def e_Tuple(self, e, env):
@@ -1231,6 +1239,37 @@ class Exec:
         self.exec_block(init.body, env2)
         return VRef(ref, cls)
 
+    def inline_call(self, fd, qual, recv, args, kwargs, e):
+        depth = getattr(self, "inline_depth", 0)
+        if depth >= 3:
+            raise Unsupported("nested calls to functions without contract deeper than 3 (at %s:%d)" % (self.mod, e.lineno))
+        if fd.args.vararg or fd.args.kwarg or fd.args.kwonlyargs:
+            raise Unsupported("variadic helper %s" % qual)
+        names = [a.arg for a in fd.args.args]
+        env2 = {names[0]: recv}
+        for n, v in zip(names[1:], args):
+            env2[n] = v
+        for k, v in kwargs.items():
+            if k not in names or k in env2:
+                self.require(BoolVal(False), "TypeError", e)
+                raise Unsupported("bad keyword argument calling %s at %d" % (qual, e.lineno))
+            env2[k] = v
+        defaults = fd.args.defaults
+        for n, dnode in zip(names[len(names) - len(defaults):], defaults):
+            if n not in env2:
+                env2[n] = self.eval(dnode, {})
+        if len(env2) != len(names):
+            self.require(BoolVal(False), "TypeError", e)
+            raise Unsupported("arity mismatch calling %s at %d" % (qual, e.lineno))
+        self.inline_depth = depth + 1
+        try:
+            self.exec_block(fd.body, env2)
+        except PyReturn as r:
+            return r.v if r.v is not None else VConst(None)
+        finally:
+            self.inline_depth = depth
+        return VConst(None)
+
     # calls to functions under contract ------------------------------------------
     def call_method(self, recv, name, args, kwargs, e):
         if recv.nullable:
@@ -1245,7 +1284,12 @@ class Exec:
             from . import callbacks
             return callbacks.apply_send(self, recv, args, kwargs, e)
         if qual not in REGISTRY:
-            raise Unsupported("call to %s which has no contract (at %s:%d)" % (qual, self.mod, e.lineno))
+            # a method without a contract of its own (e.g. a helper a refactoring extracted): executed in place
+            try:
+                fd = self.src.func(qual)
+            except Exception:
+                raise Unsupported("call to %s which has no contract (at %s:%d)" % (qual, self.mod, e.lineno))
+            return self.inline_call(fd, qual, recv, args, kwargs, e)
         return self.apply_contract(REGISTRY[qual], recv, args, kwargs, e)
 
     def bind_args(self, con, args, kwargs, e):
